@@ -197,6 +197,39 @@ def walk(t):
                             stack.append(z)
 
 
+def subst(t, old, new):
+    """t with every occurrence of sub-term `old` replaced by `new`."""
+    if t == old:
+        return new
+    if not isinstance(t, tuple):
+        return t
+    return tuple(subst(x, old, new) if isinstance(x, tuple) else x for x in t)
+
+
+def alternatives(tm, t, limit=16, _seen=frozenset()):
+    """Expands opaque multi-definition locals ("l", n) in t into one term per whole definition (a finite
+    case split over the reaching definitions, no path reasoning). Locals with partial definitions stay opaque."""
+    b = tm.body
+    for x in walk(t):
+        if x[0] != "l" or x[1] in _seen:
+            continue
+        wd = b.whole_defs(x[1])
+        if not wd or len(wd) != len(b.defs().get(x[1], [])):
+            continue
+        out = []
+        for bi, si in wd:
+            if si == "term":
+                d = tm.call_term(bi)
+            else:
+                d = tm.rvalue(b.blocks[bi]["stmts"][si]["rv"])
+            for a in alternatives(tm, subst(t, x, d), limit, _seen | {x[1]}):
+                out.append(a)
+                if len(out) >= limit:
+                    return out
+        return out
+    return [t]
+
+
 def mentions_param(t, name):
     return any(x[0] == "p" and x[2] == name for x in walk(t))
 
@@ -352,7 +385,9 @@ def canon(t):
     if k == "c":
         return ("c", t[1])
     if k == "p":
-        return ("p", t[2])
+        return ("p", t[2]) if len(t) > 2 else t
+    if k == "f" and len(t) == 3:      # already canonical
+        return ("f", canon(t[1]), t[2])
     if k == "f":
         name = t[3] if t[3] is not None else t[2]
         if isinstance(name, str) and name.isdigit():
